@@ -238,12 +238,17 @@ def main(argv=None):
     n_ok = sum(1 for r in ctx.results if r.status == "ok")
     print(f"property={a.prop} tier={a.tier} obligations={len(ctx.results)} discharged={n_ok} "
           f"known={len(kn)} violations={len(viol)} functions={len(ctx.functions_analysed)} wall={wall:.2f}s")
+    if viol and a.no_evidence:
+        for r in viol:
+            print(f"  {r.where} [{r.rule}] {r.key} :: {r.fact}")
+            print(f"VIOLATION property={a.prop} replay=<not written: --no-evidence>")
+        return 1
     if viol:
         paths = write_replays(a.prop, viol)
         for r, p in zip(viol, paths):
             print(f"  {r.where} [{r.rule}] {r.key} :: {r.fact}")
             print(f"VIOLATION property={a.prop} replay={p}")
         return 1
-    else:
+    elif not a.no_evidence:
         write_replays(a.prop, [])
     return 0
